@@ -223,4 +223,30 @@ var plans = map[string]*plan{
 		Exhaustive:     func(r *result) bool { return r.stats["c16.cells"] >= 160 },
 		Assumptions:    []string{"'bounded time' is decided at synctest quiescence (every goroutine durably blocked) plus goroutine-state inspection, not by a deadline", "read/write errors as a cause are exercised in C09 (chaos conn) and C05"},
 	},
+	"C17": {
+		Level: "exploration",
+		Rule: "concurrent real-time workload on a real broker over net.Pipe with 16 KiB rings and broker-side read fragmentation: 2..12 raw publishers (own + shared topics, QoS 0/1/2, payloads 17/100/4096/8152 bytes so packets straddle the ring end) to 2..6 stable subscribers (fast, slow, bursty readers; granted QoS 0/1/2), concurrent Server.Publish/Subscribe/Unsubscribe goroutines, retained updates, and churning subscribers being torn down while deliveries are addressed to them; GOMAXPROCS 2/4/16; also under the race detector. " +
+			"Oracle: every byte every subscriber receives is consumed by the strict reference parser with no framing error, every PUBLISH payload passes its CRC, and per (subscriber, publisher, topic, published QoS) the embedded sequence numbers are strictly increasing. distinct = run configurations.",
+		Quick:          []batchSpec{{Test: "TestC17", N: 10, Timeout: 15 * m}, {Test: "TestC17", N: 6, Race: true, Timeout: 20 * m}},
+		Thorough:       []batchSpec{{Test: "TestC17", N: 16, Timeout: 60 * m}, {Test: "TestC17", N: 16, Race: true, Timeout: 60 * m}},
+		EvalStats:      []string{"c17.runs"},
+		Floors:         map[string]int64{"c17.runs": 50, "c17.published": 20000, "c17.received": 100000, "c17.order_keys": 5000, "c17.churned_connections": 2000, "classes": 40},
+		FloorsThorough: map[string]int64{"c17.runs": 700, "c17.published": 1000000, "classes": 200},
+		Post:           func(r *result, wd string) { parseRaceLogs(r, wd) },
+		Assumptions:    []string{"quiescence by protocol barriers (publisher acks, then PINGREQ/PINGRESP on every subscriber): exact because fan-out is synchronous and rings are FIFO", "race reports in this check's -race runs are reported under their C18 signature"},
+	},
+	"C18": {
+		Level: "exploration",
+		Rule: "the Go race detector (-race, GORACE halt_on_error=0 with a log file per child, reports counted in the logs) observes the concurrent broker workloads W1 connect/subscribe/publish/disconnect churn, W2 fan-out to clients being torn down, W3 retained updates concurrent with new subscriptions on the same topics, W4 in-process Server.Publish/Subscribe/Unsubscribe alongside, W5 Server.Close during traffic, W6 the ring-buffer and ack-queue concurrent workloads, W7 (reported separately) a client id reconnecting while its previous connection is still being torn down; seeds x GOMAXPROCS 2/4/16 with seeded Gosched/sleep yields at the library's yield points; logging off. " +
+			"A report with a library frame in either access is a violation, de-duplicated by the pair of innermost library functions. Overlap counters measured in the same processes (deliveries entering writeMessage during/after the target's teardown, Retain calls during subscribe processing and vice versa) show the workloads really overlapped. distinct = (workload, GOMAXPROCS, fragmentation).",
+		Quick: []batchSpec{{Test: "TestC18", N: 10, Race: true, Timeout: 20 * m}, {Test: "TestC18", N: 2, Race: true, Timeout: 20 * m, Env: map[string]string{"VERIF_WORKLOAD": "w7"}, Tag: "w7"},
+			{Test: "TestC14Conc", N: 4, Race: true, Timeout: 15 * m}, {Test: "TestC13Conc", N: 2, Race: true, Timeout: 15 * m}},
+		Thorough: []batchSpec{{Test: "TestC18", N: 16, Race: true, Timeout: 90 * m}, {Test: "TestC18", N: 4, Race: true, Timeout: 60 * m, Env: map[string]string{"VERIF_WORKLOAD": "w7"}, Tag: "w7"},
+			{Test: "TestC14Conc", N: 8, Race: true, Timeout: 60 * m}, {Test: "TestC13Conc", N: 4, Race: true, Timeout: 30 * m}, {Test: "TestC12Client", N: 4, Race: true, Timeout: 30 * m}},
+		EvalStats:      []string{"c18.runs", "c14.conc.runs", "c13.conc.histories"},
+		Floors:         map[string]int64{"c18.runs": 40, "c18.published": 10000, "c18.overlap.writes_during_target_teardown": 1, "c18.overlap.retain_during_subscribe_processing": 5, "c18.overlap.subscribe_processing_during_retain": 1, "c18.churned_connections": 1000, "classes": 15},
+		FloorsThorough: map[string]int64{"c18.runs": 400, "classes": 20},
+		Post:           func(r *result, wd string) { parseRaceLogs(r, wd) },
+		Assumptions:    []string{"only executed schedules are observed; the detector's bounded shadow history can miss races whose accesses are far apart", "hooks add no synchronisation in the -race build (plain norace counters, clock-derived delays, no event sink)"},
+	},
 }
